@@ -188,6 +188,13 @@ class Analyzer:
         return ("n", t, 0)
 
     def read_place(self, st, pj):
+        pp = pj.get("p", ())
+        if len(pp) == 1 and pp[0] != "*" and pp[0][0] in ("i", "ci"):
+            base = st.sym.get((pj["l"], ()))
+            if base is not None and base[0] == "constdef":
+                rng = self.const_table_range(base[1])
+                if rng is not None:
+                    return ("iv", rng[0], rng[1]), self.place_type(pj)
         c = self.canon(st, pj)
         if c is None:
             # unstable place: only its type is known
@@ -210,6 +217,13 @@ class Analyzer:
                 pay = base[2] if base[1] == "some" else base[3] if base[1] == "cond" else None
                 if pay is not None and steps[-1] == "0":
                     return pay, tix
+        # element of a compile-time constant table of integers: its value lies between the table's extremes
+        if len(steps) == 1 and isinstance(steps[0], tuple) and steps[0][0] == "ix":
+            base = st.sym.get((root, ()))
+            if base is not None and base[0] == "constdef":
+                rng = self.const_table_range(base[1])
+                if rng is not None:
+                    return ("iv", rng[0], rng[1]), tix
         r = self.ty_range(tix)
         if r is not None:
             t = ("v", root, steps)
@@ -222,6 +236,20 @@ class Analyzer:
         if ty["k"] in ("ref", "ptr"):
             return ("ref", root, steps + ("*",)), tix
         return TOP, tix
+
+    def const_table_range(self, name):
+        """(min, max) over a flat constant table of integers, or None"""
+        cache = self.__dict__.setdefault("_ctr", {})
+        if name not in cache:
+            r = None
+            try:
+                tab = self.f.const_table(name)
+                if isinstance(tab, list) and tab and all(isinstance(x, int) and not isinstance(x, bool) for x in tab):
+                    r = (min(tab), max(tab))
+            except Exception:
+                r = None
+            cache[name] = r
+        return cache[name]
 
     def place_type(self, pj):
         tix = self.b.locals[pj["l"]]["t"]
@@ -1138,7 +1166,12 @@ class Analyzer:
             if self.collect and self.cast_log is not None and rv["ck"] == "int2int":
                 self.cast_log.append((self.cur_line, st.val_iv(a) if a[0] in ("n", "iv") else None, rv["from"], rv["ty"], rv["a"]))
             if rv["ck"].startswith("coerce") or rv["ck"] in ("ptr2ptr",):
-                # unsizing &[T; N] -> &[T] keeps the pointee place (array length is in the type)
+                # unsizing &[T; N] -> &[T] keeps the pointee place; the slice's length is the array length of the source type
+                if a[0] == "ref" and a[1] is not None and not isinstance(a[1], str) and rv.get("from") is not None:
+                    pt = self.pointee(rv["from"])
+                    if pt is not None and self.T[pt]["k"] == "array" and self.T[pt].get("len") is not None:
+                        n = self.T[pt]["len"]
+                        st.set_iv(("len", a[1], a[2]), n, n)
                 return a, rv["ty"]
             return self.cast(st, a, rv["from"], rv["ty"], rv["ck"]), rv["ty"]
         if k in ("ref", "rawptr"):
@@ -1504,6 +1537,18 @@ class Analyzer:
             if cond[0] == "b":
                 self.assume(st, cond[1], t["expected"])
             return [] if st.bottom else [(t["target"], st)]
+        if ak in ("overflow:Div", "overflow:Rem") and len(t.get("ops", [])) == 2:
+            # MIN / -1: this check exists in release builds too (unlike the add/sub/mul overflow checks)
+            a, at = self.eval_op(st, t["ops"][0])
+            b, bt = self.eval_op(st, t["ops"][1])
+            ia = st.val_iv(a) if a[0] in ("n", "iv") else (None, None)
+            ib = st.val_iv(b) if b[0] in ("n", "iv") else (None, None)
+            r = self.ty_range(at) if at is not None else None
+            ok = (ib[0] is not None and ib[0] > -1) or (ib[1] is not None and ib[1] < -1) or \
+                 (r is not None and ia[0] is not None and ia[0] > r[0])
+            self.oblige(bi, "S6", ok, "D6" if ok else None, self.describe(t), t,
+                        "signed division overflow: dividend %s may be the type minimum while divisor %s may be -1" % (self.vs(a), self.vs(b)), None)
+            return [(t["target"], st)]
         if ak.startswith("overflow"):
             # release semantics: the check does not exist; nothing may be assumed from it
             if self.collect:
